@@ -558,7 +558,8 @@ def ro_foreign_program(rng, pid, ft):
         vol["status"] = 1
         for e in vol["tree"]:
             if e.get("kind") == "f" and e.get("size", 0) > 0 and rng.random() < 0.6:
-                e["recsize"] = e["size"] + rng.choice([1, cs, 2 * cs + 5])
+                # (... or says nothing at all: a size of zero in front of a chain, as a reset after a crash leaves it)
+                e["recsize"] = rng.choice([e["size"] + 1, e["size"] + cs, e["size"] + 2 * cs + 5, 0, 0])
     known = _names_of(vol["tree"])
     files = [p for p, k in known if k == "f"]
     dirs = [p for p, k in known if k == "d"]
